@@ -291,6 +291,23 @@ func (l *linForm) build(sort Sort) *Term {
 	if len(ps) == 0 {
 		return RatC(sort, l.k)
 	}
+	if sort == SReal && l.k.IsInt() {
+		// integer combination of to_real(Int) atoms: keep it in Int and convert once (exact, and Floor() undoes it)
+		allInt := true
+		for _, p := range ps {
+			if p.t.Op != "to_real" || !p.c.IsInt() {
+				allInt = false
+				break
+			}
+		}
+		if allInt {
+			li := &linForm{k: new(big.Rat).Set(l.k)}
+			for _, p := range ps {
+				li.accumulate(p.t.Args[0], p.c, 0)
+			}
+			return ToReal(li.build(SInt))
+		}
+	}
 	for i := 1; i < len(ps); i++ {
 		for j := i; j > 0 && ps[j-1].t.ID > ps[j].t.ID; j-- {
 			ps[j-1], ps[j] = ps[j], ps[j-1]
@@ -512,12 +529,31 @@ func Ite(c, a, b *Term) *Term {
 			return And(c, a)
 		}
 	}
+	if a.Sort == SReal {
+		// ite over integer-valued reals: keep the integer inside a single to_real
+		ai, aok := intOfReal(a)
+		bi, bok := intOfReal(b)
+		if aok && bok {
+			return ToReal(Ite(c, ai, bi))
+		}
+	}
 	t := mk(a.Sort, "ite", c, a, b)
 	if a.Sort != SBool && t.Lo == nil && t.Hi == nil {
 		t.Lo, t.Hi = rmin(a.Lo, b.Lo), rmax(a.Hi, b.Hi)
 		t.IsIntReal = a.IsIntReal && b.IsIntReal
 	}
 	return t
+}
+
+// intOfReal returns the Int term i with a == to_real(i), if a has that shape.
+func intOfReal(a *Term) (*Term, bool) {
+	if a.Op == "to_real" {
+		return a.Args[0], true
+	}
+	if a.Op == "c" && a.Sort == SReal && a.Rat.IsInt() {
+		return RatC(SInt, a.Rat), true
+	}
+	return nil, false
 }
 
 func Not(a *Term) *Term {
